@@ -63,6 +63,9 @@ func (e *Engine) extInvoke(c *ssa.CallCommon) *extModel {
 	if m, ok := extInvokes[n]; ok {
 		return m
 	}
+	if n == "hash.Hash.Write" {
+		return extInvokes["io.Writer.Write"] // hash.Hash embeds io.Writer
+	}
 	return nil
 }
 
@@ -423,6 +426,8 @@ func init() {
 	reg("(github.com/tokenized/pkg/bitcoin.Signature).Verify", "uninterpreted: Verify(sig, hash, key)", nil, pureUF("uf!SigVerify"))
 	reg("(*github.com/tokenized/pkg/bitcoin.Signature).Verify", "uninterpreted: Verify(sig, hash, key)", nil, pureUF("uf!SigVerify"))
 	reg("time.After", "a channel (opaque)", nil, pureOpaque)
+	reg("math/rand.Uint64", "an unconstrained number; writes nothing in the modelled heap", nil, pureOpaque)
+	reg("(time.Duration).Nanoseconds", "pure", nil, pureUF("uf!durationNanos"))
 	// merkle validity of a block message: one uninterpreted predicate over the block value, whichever way it is called
 	blockValid := func(fr *Frame, st *State, c *ssa.CallCommon, args []Val, res ssa.Value) Val {
 		v := fr.v
